@@ -166,6 +166,7 @@ func checkC07(p *Prog, r *Report) {
 	r.rule("R-M", "Mark discipline (Cisco): needed / ready / toDelete decide which device objects are kept and which become deletion candidates; every store into such a mark in package cisco lies at a function+site whose controlling conditions are audited rows of tables/guards.tsv (compared by R07.5).")
 	ruleMarkDiscipline(p, r, "R-M", "C07", "cisco", []string{"cmd.needed", "cmd.ready", "cmd.toDelete"}, 18)
 	ruleListMapsAccumulate(p, r)
+	ruleTemplateOrder(p, r, "R07.t")
 	rulePanosForeignVsys(p, r)
 	// the Cisco parser's line state decides which lines belong to a modelled command: lines of a command
 	// the tool does not model must not be attached to the previous modelled one (R-S, with the
